@@ -5,23 +5,23 @@ Import ListNotations.
 
 (* FIRST CLAUSE, in full: 'minimising a counterfactual variable yields the same random variable in every compatible model'.
    For every graph with a topological order (i.e. acyclic), every functional SCM over it (structural functions that read their parents only,
-   any exogenous space U, any base assignment rho), every variable Y_x of the graph and every exogenous state u: every solution of the submodel
+   any value type D, any exogenous space U, any two named values rho (n, false) / rho (n, true) per variable), every variable Y_x of the graph and every exogenous state u: every solution of the submodel
    M_x and every solution of the submodel of the minimised variable give Y the same value. The statement is pointwise in u, so it holds for every
    distribution of u - every structural causal model compatible with the graph, whatever its bidirected part. *)
-Theorem C19_minimised_variable_is_the_same_random_variable (g : mg nat) (U : Type) (f : nat -> (nat -> bool) -> U -> bool) (rho : nat -> bool)
+Theorem C19_minimised_variable_is_the_same_random_variable (g : mg nat) (D : Type) `{EqB D} (U : Type) (f : nat -> (nat -> D) -> U -> D) (rho : nat * bool -> D)
   (order : list nat) (v v' : var) :
   local g U f -> is_topo g order = true -> minimize_counterfactual v g = Some v' -> In (vn v) (nodes g) ->
   forall u x x', solution g U f rho (var_ivs v) u x -> solution g U f rho (var_ivs v') u x' -> x (vn v) = x' (vn v').
 Proof. intros Hl Ho. exact (minimize_same_variable g U f rho Hl order Ho v v'). Qed.
 
 (* the semantics is not vacuous: every submodel has a solution (computed along the order) and only one *)
-Theorem C19_every_submodel_has_exactly_one_solution (g : mg nat) (U : Type) (f : nat -> (nat -> bool) -> U -> bool) (rho : nat -> bool) (order : list nat) ivs u :
+Theorem C19_every_submodel_has_exactly_one_solution (g : mg nat) (D : Type) `{EqB D} (U : Type) (f : nat -> (nat -> D) -> U -> D) (rho : nat * bool -> D) (order : list nat) ivs u :
   local g U f -> is_topo g order = true ->
   solution g U f rho ivs u (solve U f rho order ivs u) /\ forall x x', solution g U f rho ivs u x -> solution g U f rho ivs u x' -> forall v, In v (nodes g) -> x v = x' v.
 Proof. intros Hl Ho. split; [exact (solution_exists g U f rho Hl order Ho ivs u)|exact (solution_unique g U f rho Hl order Ho ivs u)]. Qed.
 
 (* SIMPLIFY's first step (minimise every variable of the event) changes the truth of the event at no exogenous state *)
-Theorem C19_minimising_an_event_preserves_its_truth_everywhere (g : mg nat) (U : Type) (f : nat -> (nat -> bool) -> U -> bool) (rho : nat -> bool)
+Theorem C19_minimising_an_event_preserves_its_truth_everywhere (g : mg nat) (D : Type) `{EqB D} (U : Type) (f : nat -> (nat -> D) -> U -> D) (rho : nat * bool -> D)
   (order : list nat) (ev ev' : cevent) u :
   local g U f -> is_topo g order = true ->
   map_opt (fun p => option_map (fun v => (v, snd p)) (minimize_counterfactual (fst p) g)) ev = Some ev' ->
@@ -33,11 +33,11 @@ Proof. intros Hl Ho. exact (minimize_event_same_truth g U f rho Hl order Ho ev e
    on the one-node graph, SIMPLIFY turns the certain event Y_y = y into the factual Y = y; in the model Y := u the first is true at
    both states, the second at one. *)
 Theorem C19_simplify_preserves_probability_refuted :
-  exists (g : mg nat) (ev ev' : cevent) (f : nat -> (nat -> bool) -> bool -> bool) (rho : nat -> bool) (order : list nat) (u : bool),
+  exists (g : mg nat) (ev ev' : cevent) (f : nat -> (nat -> bool) -> bool -> bool) (rho : nat * bool -> bool) (order : list nat) (u : bool),
     local g bool f /\ is_topo g order = true /\ simplify ev g = SEvent ev' /\ cevent_true bool f rho order ev u = true /\ cevent_true bool f rho order ev' u = false.
 Proof.
   exists (MG [0] [] []), [(mkVar KCf 0 None [(0, false)], Some (0, false))], [(V 0, Some (0, false))],
-         (fun _ _ u => u), (fun _ => true), [0], false.
+         (fun _ _ u => u), (fun i => negb (snd i)), [0], false.
   split; [intros v x x' u _; reflexivity|]. vm_compute. auto.
 Qed.
 
